@@ -317,7 +317,7 @@ pub fn run(ctx: &Ctx) {
     let suites = all_suites();
     let mut cases = Vec::new();
     for (ni, hs) in names.iter().enumerate() {
-        for k in 0..ctx.tier.pick(1usize, 6) {
+        for k in 0..ctx.tier.pick(3usize, 8) {
             let suite = suites[(ni * 5 + k * 7) % suites.len()];
             let mut spec = SessionSpec::simple(hs.clone(), suite, mix(ctx.seed, (ni * 7 + k) as u64));
             spec.prologue_len = [0usize, 12, 100][(ni + k) % 3];
@@ -337,7 +337,7 @@ pub fn run(ctx: &Ctx) {
     let seed = ctx.seed;
     ctx.run_prop(
         "random_combinations",
-        ctx.tier.pick(4000, 80_000),
+        ctx.tier.pick(10_000, 150_000),
         || {
             let names = names.clone();
             (any::<u16>(), 0usize..24, any::<u64>(), prop::collection::vec((0usize..14, any::<u64>()), 1..4), 0usize..3).prop_map(move |(ni, si, ks, ds, pl)| {
